@@ -45,7 +45,7 @@ Theorem m15_no_stale_index k i m s o :
   inv s -> Forall (fun v => v_tag v <> V15_stale_index) (snd (m15_step k i m (obs_of (tstep_of k s o)))).
 Proof.
   intro I. pose proof (step_inv k s o I) as I'.
-  unfold m15_step. cbv zeta. cbn [snd]. unfold obs_of, tstep_of. cbn [b_op b_outs b_hooks b_pre b_post t_op t_outs t_hooks t_pre t_post].
+  unfold m15_step, m15_vjust. cbv zeta. cbn [snd]. unfold obs_of, tstep_of. cbn [b_op b_outs b_hooks b_pre b_post t_op t_outs t_hooks t_pre t_post].
   rewrite (v_index_nil i (fst (step k s o)) I').
   repeat (apply Forall_app; split); try (constructor; fail).
   all: tag_solve; cbn; try discriminate.
